@@ -1,0 +1,10 @@
+//go:build verif
+
+package mgr
+
+// VerifWorkerCnt returns the number of workers currently running under this
+// manager.
+// Verification hook: only compiled with the "verif" build tag.
+func (m *Manager) VerifWorkerCnt() int32 {
+	return m.workerCnt.Load()
+}
